@@ -34,6 +34,12 @@ pub struct Case {
     /// expression accepts (the shape of a tagged key table followed by a terminator)
     #[serde(default)]
     pub context: Option<Context>,
+    /// history on the NFA value: the expression is built and compiled once (that automaton is
+    /// checked too), then extended with a postfix combinator (0 `some`, 1 `many`, 2 `optional`;
+    /// bit 2: the extension is applied to a clone instead of the compiled value itself) and
+    /// compiled again -- nothing computed for the first compilation may leak into the second
+    #[serde(default)]
+    pub recompiled: Option<u8>,
 }
 
 #[derive(Clone, Debug, Serialize, Deserialize)]
@@ -266,6 +272,52 @@ impl Walker<'_> {
     }
 }
 
+/// compare one compiled automaton with the reference expressions `ders` (one per tagged
+/// alternative, the whole expression last)
+fn walk(case: &Case, dfa: &DFA<usize>, ders: Vec<Re>) -> Outcome {
+        let mut alphabet = BTreeSet::new();
+        case.alts.iter().for_each(|r| r.alphabet(&mut alphabet));
+        if let Some(ctx) = &case.context {
+            ctx.prefix.iter().chain(ctx.suffix.iter()).for_each(|r| r.alphabet(&mut alphabet));
+        }
+        alphabet.extend(ABC.iter().copied());
+        let mut w = Walker {
+            case,
+            dfa,
+            alphabet: alphabet.into_iter().collect(),
+            visited: 0,
+            accepted: 0,
+            dead: 0,
+        };
+        let start = dfa.start();
+        w.check_node(&[], start, &ders)?;
+        w.dfs(&mut Vec::new(), start, &ders, case.depth)?;
+        for extra in &case.extra {
+            let mut st = start;
+            let mut d = ders.clone();
+            let mut s = Vec::new();
+            for &x in extra {
+                match w.step(&mut s, st, &d, x)? {
+                    None => break,
+                    Some((nst, nd)) => {
+                        s.push(x);
+                        st = nst;
+                        d = nd;
+                    }
+                }
+            }
+        }
+        let nontrivial = case.alts.iter().any(Re::has_postfix_on_composite);
+        Ok(Pass::new(nontrivial)
+            .label(if case.tagged { "tagged-choice" } else { "single-expression" })
+            .label_if(case.nested_from.is_some() && case.tagged, "nested-choice")
+            .label_if(case.context.is_some(), "tagged-choice-inside-a-sequence")
+            .label_if(case.context.as_ref().is_some_and(|c| c.looped), "tagged-choice-inside-a-loop")
+            .label_if(w.accepted > 0, "accepts-something")
+            .label_if(w.dead > 0, "has-dead-transition")
+            .label_if(nontrivial, "postfix-on-composite"))
+}
+
 impl Property for C15 {
     type Case = Case;
 
@@ -283,14 +335,15 @@ impl Property for C15 {
             ),
             0..6,
         );
-        let single = (re(), any::<bool>(), extra.clone()).prop_map(move |(r, variant, extra)| Case {
+        let single = (re(), any::<bool>(), extra.clone(), proptest::option::weighted(0.25, 0u8..8)).prop_map(move |(r, variant, extra, recompiled)| Case {
             alts: vec![r],
             tagged: false,
             nested_from: None,
             variant,
             extra,
-            depth,
+            depth: if recompiled.is_some() { depth.min(5) } else { depth },
             context: None,
+            recompiled,
         });
         let context = proptest::option::weighted(
             0.4,
@@ -324,56 +377,37 @@ impl Property for C15 {
                     extra,
                     depth: depth.min(5),
                     context,
+                    recompiled: None,
                 }
             });
         prop_oneof![3 => single, 2 => tagged].boxed()
     }
 
     fn check(&self, case: &Case) -> Outcome {
+        if let Some(how) = case.recompiled {
+            // first compilation: judged as the plain case
+            let plain = Case { recompiled: None, ..case.clone() };
+            let nfa = guard_val(|| build(&plain))?;
+            let dfa = guard_val(|| nfa.compile())?;
+            walk(&plain, &dfa, reference(&plain))?;
+            // extension of the already compiled value (or of a clone of it), second compilation
+            let nfa = if how & 4 != 0 { nfa.clone() } else { nfa };
+            let (nfa, post): (NFA<usize>, fn(Box<Re>) -> Re) = match how & 3 {
+                0 => (guard_val(|| nfa.some())?, Re::Plus),
+                1 => (guard_val(|| nfa.many())?, Re::Star),
+                _ => (guard_val(|| nfa.optional())?, Re::Opt),
+            };
+            let dfa = guard_val(|| nfa.compile())?;
+            // reference: the postfix operator around the whole expression; tags are not judged
+            // here (they sit inside a loop now), so only the language entry is kept
+            let whole = reference(&plain).pop().expect("whole expression");
+            let untagged = Case { tagged: false, ..plain.clone() };
+            let w = walk(&untagged, &dfa, vec![post(Box::new(whole))])?;
+            return Ok(w.label("compiled-extended-compiled-again"));
+        }
         let nfa = guard_val(|| build(case))?;
         let dfa = guard_val(|| nfa.compile())?;
-        let mut alphabet = BTreeSet::new();
-        case.alts.iter().for_each(|r| r.alphabet(&mut alphabet));
-        if let Some(ctx) = &case.context {
-            ctx.prefix.iter().chain(ctx.suffix.iter()).for_each(|r| r.alphabet(&mut alphabet));
-        }
-        alphabet.extend(ABC.iter().copied());
-        let mut w = Walker {
-            case,
-            dfa: &dfa,
-            alphabet: alphabet.into_iter().collect(),
-            visited: 0,
-            accepted: 0,
-            dead: 0,
-        };
-        let start = dfa.start();
-        let ders: Vec<Re> = reference(case);
-        w.check_node(&[], start, &ders)?;
-        w.dfs(&mut Vec::new(), start, &ders, case.depth)?;
-        for extra in &case.extra {
-            let mut st = start;
-            let mut d = ders.clone();
-            let mut s = Vec::new();
-            for &x in extra {
-                match w.step(&mut s, st, &d, x)? {
-                    None => break,
-                    Some((nst, nd)) => {
-                        s.push(x);
-                        st = nst;
-                        d = nd;
-                    }
-                }
-            }
-        }
-        let nontrivial = case.alts.iter().any(Re::has_postfix_on_composite);
-        Ok(Pass::new(nontrivial)
-            .label(if case.tagged { "tagged-choice" } else { "single-expression" })
-            .label_if(case.nested_from.is_some() && case.tagged, "nested-choice")
-            .label_if(case.context.is_some(), "tagged-choice-inside-a-sequence")
-            .label_if(case.context.as_ref().is_some_and(|c| c.looped), "tagged-choice-inside-a-loop")
-            .label_if(w.accepted > 0, "accepts-something")
-            .label_if(w.dead > 0, "has-dead-transition")
-            .label_if(nontrivial, "postfix-on-composite"))
+        walk(case, &dfa, reference(case))
     }
 
     fn cases(&self, tier: Tier) -> u32 {
@@ -381,7 +415,7 @@ impl Property for C15 {
     }
 
     fn rule(&self) -> String {
-        "expressions: recursive AST (depth<=4, <=24 nodes) over bytes {a,b,c,ESC,0xff,'0'} with literal, byte-set (incl. empty), empty, nothing, sequence, choice, optional, one-or-more, zero-or-more, extra weight on ?/+ around operands beginning/ending with a loop; 40% as a tagged choice of 2-6 alternatives (flat or with a nested group, duplicates allowed), in 40% of those placed inside a sequence `prefix (choice) suffix` or `prefix (choice)+ suffix` so that an alternative completes before the whole expression accepts. Built via the public NFA API (two spellings), compiled, and compared with a Brzozowski-derivative matcher on ALL strings over {a,b,c} up to length 5 (thorough 6) plus up to 6 random strings of length <20: acceptance, dead-transition soundness, tag sets, terminal flag, determinism. non-trivial = some postfix operator is applied to a non-atomic operand".into()
+        "expressions: recursive AST (depth<=4, <=24 nodes) over bytes {a,b,c,ESC,0xff,'0'} with literal, byte-set (incl. empty), empty, nothing, sequence, choice, optional, one-or-more, zero-or-more, extra weight on ?/+ around operands beginning/ending with a loop; 40% as a tagged choice of 2-6 alternatives (flat or with a nested group, duplicates allowed), in 40% of those placed inside a sequence `prefix (choice) suffix` or `prefix (choice)+ suffix` so that an alternative completes before the whole expression accepts. One single expression in four is compiled, then extended with some()/many()/optional() (the compiled value itself or a clone of it) and compiled again, both automata being judged. Built via the public NFA API (two spellings), compiled, and compared with a Brzozowski-derivative matcher on ALL strings over {a,b,c} up to length 5 (thorough 6) plus up to 6 random strings of length <20: acceptance, dead-transition soundness, tag sets, terminal flag, determinism. non-trivial = some postfix operator is applied to a non-atomic operand".into()
     }
 
     fn assumptions(&self) -> Vec<String> {
